@@ -1,19 +1,25 @@
 import PxModel.Idle
 namespace Px.Idle
 
-def parseEv1 (tok : String) : Option Ev :=
+/-- piece lengths: `-` (none) or `3+0+5` -/
+def parseLens (s : String) : Option (List Nat) :=
+  if s == "-" then some [] else (s.splitOn "+").mapM (·.toNat?)
+
+def parseEv1 (tok : String) : Option PEv :=
   match tok.splitOn "," with
-  | ["r", t, k] => do some (.clientRead (← t.toInt?) (← k.toNat?))
+  | ["r", t, l] => do some (.clientRead (← t.toInt?) (← parseLens l))
   | ["e", t] => do some (.clientReadEnd (← t.toInt?))
-  | ["w", t, f] => do some (.clientWrite (← t.toInt?) (f == "1"))
-  | ["u", t, k] => do some (.upstream (← t.toInt?) (← k.toNat?))
+  | ["w", t, a] =>
+    if a == "b" then do some (.clientWrite (← t.toInt?) none)
+    else do some (.clientWrite (← t.toInt?) (some (← a.toNat?)))
+  | ["u", t, l] => do some (.upstream (← t.toInt?) (← parseLens l))
   | ["i", t] => do some (.loopIter (← t.toInt?))
   | _ => none
 
 /-- a leading `~` marks an event whose observation the harness cannot take
     (first half of a combined readable+writable `handle_events` call, the
     threaded loop's very first check) -/
-def parseEv (tok : String) : Option (Bool × Ev) :=
+def parseEv (tok : String) : Option (Bool × PEv) :=
   if tok.startsWith "~" then (parseEv1 (tok.drop 1).toString).map (fun e => (true, e))
   else (parseEv1 tok).map (fun e => (false, e))
 
@@ -23,40 +29,42 @@ def statusStr : Status → String
   | .torn t => s!"T{t}"
 
 /-- observation after one event handled at the event's own time -/
-def obs (cfg : Cfg) (s : St) (e : Ev) : String :=
+def obs (cfg : Cfg) (s : St) (now : Int) : String :=
   match s.status with
   | .open =>
-    s!"{s.lastActivity}:{s.numBuffer}:{s.reaperRuns}:{if isInactive cfg s e.time then 1 else 0}:{if s.readsTorn then "l" else "o"}"
+    s!"{s.lastActivity}:{s.numBuffer}:{s.reaperRuns}:{if isInactive cfg s now then 1 else 0}:{if s.readsTorn then "l" else "o"}"
   | .reaped t => s!"R{t}"
   | .torn t => s!"T{t}"
 
-def traceOut (cfg : Cfg) : St → List (Bool × Ev) → List String
+def traceOut (cfg : Cfg) (maxSend : Nat) : PSt → List (Bool × PEv) → List String
   | _, [] => []
   | s, (silent, e) :: r =>
-    let s' := step cfg s e
-    if silent then traceOut cfg s' r else obs cfg s' e :: traceOut cfg s' r
+    let s' := pstep cfg maxSend s e
+    if silent then traceOut cfg maxSend s' r
+    else obs cfg s'.st (e.toEv maxSend s).time :: traceOut cfg maxSend s' r
 
-def drvTrace (cfg : Cfg) (start : String) (evs : List String) : String :=
-  match start.toInt?, evs.mapM parseEv with
-  | some t0, some tr => "ok " ++ "|".intercalate (traceOut cfg (init t0) tr)
-  | _, _ => "bad-op"
+def drvTrace (cfg : Cfg) (maxSend start : String) (evs : List String) : String :=
+  match maxSend.toNat?, start.toInt?, evs.mapM parseEv with
+  | some m, some t0, some tr => "ok " ++ "|".intercalate (traceOut cfg m (pinit t0) tr)
+  | _, _, _ => "bad-op"
 
 def natsStr (l : List Nat) : String := ",".intercalate (l.map toString)
 
-/-- `idle trace <threaded> <timeout> <sel> <wait> <cleanup> <start> <ev>…`   (explicit cadence constants)
-    `idle itrace <threaded> <timeout> <start> <ev>…`                        (generated constants)
+/-- events: `r,<t>,<lens>` `e,<t>` `w,<t>,<acc|b>` `u,<t>,<lens>` `i,<t>`; lens = `-` or `3+0+5`
+    `idle trace <threaded> <timeout> <sel> <wait> <cleanup> <maxsend> <start> <ev>…`   (explicit cadence constants)
+    `idle itrace <threaded> <timeout> <maxsend> <start> <ev>…`                        (generated constants)
     `idle cadence <sel> <wait> <cleanup> <n>` / `idle icadence <n>` : reaper iterations among the first `n`
     `idle iperiod` : iterations between reaper runs for the generated constants -/
 def drv (args : List String) : String :=
   match args with
-  | "trace" :: th :: to :: sel :: wait :: cl :: start :: evs =>
+  | "trace" :: th :: to :: sel :: wait :: cl :: ms :: start :: evs =>
     match to.toInt?, sel.toNat?, wait.toNat?, cl.toNat? with
     | some to, some sel, some wait, some cl =>
-      drvTrace { timeout := to, threaded := th == "1", sel := sel, wait := wait, cleanup := cl } start evs
+      drvTrace { timeout := to, threaded := th == "1", sel := sel, wait := wait, cleanup := cl } ms start evs
     | _, _, _, _ => "bad-op"
-  | "itrace" :: th :: to :: start :: evs =>
+  | "itrace" :: th :: to :: ms :: start :: evs =>
     match to.toInt? with
-    | some to => drvTrace (implCfg to (th == "1")) start evs
+    | some to => drvTrace (implCfg to (th == "1")) ms start evs
     | none => "bad-op"
   | ["cadence", sel, wait, cl, n] =>
     match sel.toNat?, wait.toNat?, cl.toNat?, n.toNat? with
